@@ -297,3 +297,11 @@ Theorem C16_src_hostname_cosmetic_resources_is_model :
   Some (hostname_cosmetic_resources h c hostname dom gh).
 Proof. exact Struct_Resources_Proofs.interp_resources_is_model. Qed.
 Print Assumptions C16_src_hostname_cosmetic_resources_is_model.
+
+(* where `CosmeticFilterCache::add_filter` stores a rule (Generated.RouteGen: the statements of its
+   two branches): a rule with a hostname constraint goes to the per-host database and, if it has a
+   hidden generic form, ALSO to the generic stores; any other rule to the generic stores only *)
+Theorem C16_src_add_filter_is_model : forall (h : str -> N) (uw : N -> bool) (c : cache) (r : crule),
+  Struct_Resources_Proofs.interp_add_filter h uw c r = add_filter h uw c r.
+Proof. exact Struct_Resources_Proofs.interp_add_filter_is_model. Qed.
+Print Assumptions C16_src_add_filter_is_model.
